@@ -1555,11 +1555,6 @@ func (o *RuntimeError) Unwrap() error {
 }
 
 func (o *RuntimeError) addTrace(pos parser.Pos) {
-	if len(o.Trace) > 0 {
-		if o.Trace[len(o.Trace)-1] == pos {
-			return
-		}
-	}
 	o.Trace = append(o.Trace, pos)
 }
 
